@@ -42,7 +42,7 @@ def Safe (c : Cfg) : Prop :=
   activeCount c.sh ≤ 1 ∧
   (allDone c = true → ∀ q, q < c.sh.nprocs → (c.sh.procs q).hook = true → c.sh.reg = some (c.sh.procs q).node)
 
-def isSender (prog : List Op) : Bool := prog.any (· != .d)
+def isSender (prog : List Op) : Bool := prog.any fun o => o != .d && o != .t
 /-- at most one sender thread per node: what the per-identity single flight guarantees -/
 def oneSender (thr : List (Node × List Op)) : Bool := distinct ((thr.filter fun x => isSender x.2).map Prod.fst)
 /-- one thread per node: additionally no deactivation concurrent with the node's own operations -/
